@@ -9,7 +9,7 @@ PROPS = {
     "C16": {
         "units": ["hid"],
         "kani_complete": [],
-        "kani_bounded_quick": [],
+        "kani_bounded_quick": ["hid_send_quick"],
         "kani_bounded_thorough": ["hid_send"],
         "design_ref": "DESIGN.md section 5 / C16",
         "not_covered": [
@@ -22,8 +22,8 @@ PROPS = {
     "C17": {
         "units": ["u2f"],
         "kani_complete": [],
-        "kani_bounded_quick": [],
-        "kani_bounded_thorough": ["u2f_wf"],
+        "kani_bounded_quick": ["u2f_enc_quick"],
+        "kani_bounded_thorough": ["u2f_enc", "u2f_wf"],
         "design_ref": "DESIGN.md section 5 / C17",
         "not_covered": [
             "U2fApi::register / authenticate (async_trait methods, p256 signing, iterator chains): that the "
@@ -55,7 +55,7 @@ PROPS = {
         ],
     },
     "C02": {
-        "units": ["cer"], "kani_complete": [], "kani_bounded_quick": [], "kani_bounded_thorough": [],
+        "units": ["cer"], "kani_complete": [], "kani_bounded_quick": ["choose_alg"], "kani_bounded_thorough": [],
         "design_ref": "DESIGN.md section 5 / C02",
         "not_covered": [
             "Client::register: client data JSON, base64url challenge, attestation object CBOR, byte-identical "
